@@ -270,3 +270,16 @@ package evm
 //@   modifies evmBal
 //@   assert@call(SubBalance,0): $arg0 == sender && $arg1 == amount                                            [C17]
 //@   assert@call(AddBalance,0): $arg0 == recipient && $arg1 == amount                                         [C17]
+
+// ---- vm_call query (input-facing: C09) ------------------------------------------------------------
+
+//@ func (ctrler *EVMCtrler) callVM(from, to, data, height, blockTime)
+//@   trusted
+//@   objinv ctrler != nil
+//@   modifies everything
+//@   ensures (result1 == nil) <==> (result0 != nil)
+
+//@ func (ctrler *EVMCtrler) Query(req)
+//@   nopanic
+//@   objinv ctrler != nil
+//@   modifies everything
